@@ -509,8 +509,10 @@ def isnan_pred(I, x):
         return False
     if _ISNAN is None:
         _ISNAN = z3.Function("isnan", z3.RealSort(), z3.BoolSort())
-    USED.add("NaN modelled as an uninterpreted predicate isnan(x) on real terms")
-    return _ISNAN(ops.as_real(x))
+    USED.add("NaN modelled as an uninterpreted predicate isnan(x) on real terms (plus the constant NaN)")
+    from .values import NAN_CONST
+    xr = ops.as_real(x)
+    return z3.Or(xr == NAN_CONST, _ISNAN(xr))
 
 
 @lib("numpy.all")
@@ -917,3 +919,27 @@ def np_tile(I, args, kwargs):
     n = a.len
     USED.add("np.tile(a, r)[i] == a[i mod len(a)], length r*len(a)")
     return SArr((ops.scalar_arith(I.ctx, "Mult", n, reps),), lambda i: a.fn(pure_arith(I, "Mod", i, n)), a.dtype, "ndarray")
+
+
+# ----------------------------------------------------------------------------- aggregators (uninterpreted, recorded)
+
+@lib("numpy.nanmean", "numpy.mean", "numpy.nanmedian", "numpy.median")
+def np_nanmean(I, args, kwargs):
+    """aggregates are uninterpreted: the call is recorded in the ghost trace with the array it is given (contracts
+    state WHICH cells feed each output); the result of a 2-d axis=0 aggregate is one uninterpreted value per column"""
+    from .libmodels import Event
+    name = I.cur_node.func.attr
+    a = to_arr(I, args[0])
+    axis = arg(args, kwargs, 1, "axis")
+    USED.add(f"np.{name}: uninterpreted aggregator, recorded with its argument")
+    if a.ndim == 1 and axis in (None, 0):
+        r = I.ctx.fresh_real(name)
+        I.ctx.trace.append(Event(None, name, [a], {"axis": axis}, r, getattr(I.ctx, "loop_k", None)))
+        return r
+    if a.ndim == 2 and axis == 0:
+        f = I.ctx.fresh_fun(name + "_col", z3.IntSort(), z3.RealSort())
+        out = SArr((a.shape[1],), lambda j: f(to_z3(j)), "real", "ndarray")
+        out.ufun = f
+        I.ctx.trace.append(Event(None, name, [a], {"axis": 0}, out, getattr(I.ctx, "loop_k", None)))
+        return out
+    raise Undecided(f"np.{name} with axis={axis} on {a.ndim}-d array")
